@@ -36,7 +36,7 @@ Fixpoint ppath (fuel : nat) (pairs : list (string * json)) : option (list step) 
               | None => None
               | Some sorted =>
                   ppath f (map (fun x => (k, x)) (filter is_var_json vv)
-                           ++ map (fun x => (k, picast x)) sorted ++ rest)%list
+                           ++ map (fun x => (k, x)) sorted ++ rest)%list
               end
           | _ => None
           end
@@ -76,15 +76,12 @@ Fixpoint no_propvar_keys (p : json) : bool :=
   | _ => true
   end.
 
-Definition is_null (j : json) : bool := match j with JNull => true | _ => false end.
-
-(** Every array of the pattern (at any depth) has at most one variable element
-    and no [null] element.  Both restrictions are necessary: see
-    [two_array_vars_counterexample] and [null_in_array_counterexample].
+(** Every array of the pattern (at any depth) has at most one variable
+    element.  The restriction is necessary: see [two_array_vars_counterexample].
     Elements may otherwise be arbitrary (scalars, maps, arrays). *)
 Fixpoint arrays_ok (p : json) : bool :=
   match p with
-  | JArr l => (length (filter is_var_json l) <=? 1)%nat && negb (existsb is_null l) && forallb arrays_ok l
+  | JArr l => (length (filter is_var_json l) <=? 1)%nat && forallb arrays_ok l
   | JObj kvs => forallb (fun kv => arrays_ok (snd kv)) kvs
   | _ => true
   end.
